@@ -37,6 +37,34 @@ mod verif_oracle_ntt {
                 }
             }
         }
+        // the statement of C10 itself, executed: forward transform == evaluation of the (zero-padded) polynomial at the powers
+        // of the principal root (shifted by the next-order root when set_s), for short inputs and a STALE output buffer;
+        // the inverse transform undoes it.  (Not decided deductively - DESIGN section 4 C10 - but any input found here is a
+        // genuine counterexample on the real code.)
+        for &size in &[1usize, 2, 4, 8, 16, 32] {
+            let mut l = 0; while (1usize << l) < size { l += 1; }
+            for inp_len in 1..=size {
+                for &set_s in &[false, true] {
+                    let inp = sample(inp_len, 5);
+                    let mut outp = vec![sentinel; size + 1];
+                    if ntt_internal(&mut outp, &inp, size, set_s).is_err() { println!("COUNTEREXAMPLE ntt_internal size={} inp_len={} set_s={} returned Err", size, inp_len, set_s); continue; }
+                    let w = Field64::root(l).unwrap();
+                    let s = if set_s { Field64::root(l + 1).unwrap() } else { Field64::one() };
+                    let mut x = s;
+                    for i in 0..size {
+                        if outp[i] != poly_eval_monomial(&inp, x) {
+                            println!("COUNTEREXAMPLE ntt_internal size={} inp_len={} set_s={} (output buffer pre-filled with a non-zero value): output[{}] differs from the polynomial evaluated at s*w^{}", size, inp_len, set_s, i, i);
+                            break;
+                        }
+                        x *= w;
+                    }
+                    if inp_len == size && !set_s {
+                        let mut back = vec![sentinel; size];
+                        if ntt_inv(&mut back, &outp[..size], size).is_err() || back != inp { println!("COUNTEREXAMPLE ntt_inv(ntt(v)) != v at size {}", size); }
+                    }
+                }
+            }
+        }
         // ntt_inv_finish: out[i] = in[(size - i) mod size] * inv, frame
         for &size in &[2usize, 4, 8, 64] {
             let inp = sample(size + 2, 11);
